@@ -294,7 +294,17 @@ func liveRunNode(dir string) {
 		lastStore, lastChange, lastDetail := int64(-1), time.Now(), time.Time{}
 		for {
 			time.Sleep(liveTick)
-			rs, peers := node.Angine.GetConsensusStateInfo()
+			// GetConsensusStateInfo (the RPC's consensus dump) panics on a peer that the switch has
+			// already listed but whose PeerState the consensus reactor has not attached yet; that is
+			// a flaw of the diagnostic call, not of consensus: skip the beat
+			rs, peers, ok := func() (rs string, peers []string, ok bool) {
+				defer func() { recover() }()
+				rs, peers = node.Angine.GetConsensusStateInfo()
+				return rs, peers, true
+			}()
+			if !ok {
+				continue
+			}
 			m := liveHRS.FindStringSubmatch(rs)
 			if m == nil {
 				m = []string{"", "0", "0", "?"}
